@@ -1357,6 +1357,39 @@ func twinC13(pd *propDef) func(w *mc.Worker, s *scenario, dir string, trace []st
 		}
 		sort.Strings(labels)
 		lab := strings.Join(labels, "+")
+		differs := string(a) != string(b) || (lastRP.err == nil) != (tx.last.err == nil) || len(lastRP.updates) != len(tx.last.updates)
+		if differs && len(x.rejected) > 1 {
+			// name the refused updates that are responsible on their own: the trace is replayed with each of them kept alone
+			cul := map[string]bool{}
+			for _, keep := range x.rejected {
+				var t1 []string
+				for i, ev := range trace {
+					if !rej[i] || i == keep {
+						t1 = append(t1, ev)
+					}
+				}
+				_, x1, p1 := runTrace(pd, s, t1, false)
+				if x1 == nil || p1 == nil {
+					continue
+				}
+				c1 := *p1
+				c1.KeyOnly = nil
+				d1, _ := json.Marshal(&c1)
+				if string(d1) != string(b) || (x1.last.err == nil) != (tx.last.err == nil) || len(x1.last.updates) != len(tx.last.updates) {
+					var k int
+					fmt.Sscanf(strings.Split(trace[keep], ":")[1], "%d", &k)
+					cul[s.cfgs[k].label] = true
+				}
+			}
+			if len(cul) > 0 {
+				labels = labels[:0]
+				for l := range cul {
+					labels = append(labels, l)
+				}
+				sort.Strings(labels)
+				lab = strings.Join(labels, "+")
+			}
+		}
 		if string(a) != string(b) {
 			v.add("rejected-config-changes-later-decisions", "rejected-config-changes-later-decisions:"+lab, "with the rejected updates the history ends differently than without them (twin trace %v): %s", twin, firstDiff(string(a), string(b)))
 		} else if (lastRP.err == nil) != (tx.last.err == nil) || len(lastRP.updates) != len(tx.last.updates) {
